@@ -435,6 +435,53 @@ func runC16(r *engine.Run) {
 		c.Outcome("malformed/" + ans.Result.ResultCode + flat.ResultCode)
 	})
 
+	// ---- F: request histories through ONE handler while the device store is
+	// re-provisioned between requests (same DevEUI, changing root keys / nonce)
+	type hstep struct {
+		kind, keyset int
+		optNeg       bool
+	}
+	var halpha []hstep
+	for _, kind := range []int{0, 1, 2} {
+		for ks := 0; ks < 2; ks++ {
+			for _, on := range []bool{false, true} {
+				halpha = append(halpha, hstep{kind, ks, on})
+			}
+		}
+	}
+	nh := uint64(len(halpha))
+	r.PartDims("F/request-histories", []string{fmt.Sprintf("alphabet: kind{join,rejoin0,rejoin1} x root key set(2) x OptNeg = %d", nh), "history length:1..3", "one handler, one DevEUI, device store re-provisioned between requests"}, nh+nh*nh+nh*nh*nh, func(c *engine.Case) {
+		i := c.Index
+		l := 1
+		for n := nh; i >= n; n *= nh {
+			i -= n
+			l++
+		}
+		var current C16Case
+		h, err := joinserver.NewHandler(joinserver.HandlerConfig{
+			GetDeviceKeysByDevEUIFunc: func(devEUI lorawan.EUI64) (joinserver.DeviceKeys, error) {
+				return joinserver.DeviceKeys{DevEUI: devEUI, NwkKey: keyOf(current.NwkKey), AppKey: keyOf(current.AppKey), JoinNonce: current.JoinNonce}, nil
+			},
+		})
+		if err != nil {
+			c.Fail("harness/new-handler", err.Error(), nil)
+			return
+		}
+		for step := 0; step < l; step++ {
+			st := halpha[i%nh]
+			i /= nh
+			k := baseCase()
+			k.Kind, k.NwkKey, k.AppKey = st.kind, C16KeysNwk[st.keyset], C16KeysApp[st.keyset]
+			k.Nonce, k.JoinNonce, k.TxID = uint16(0x100+step), 0x20+step, uint32(step)
+			if st.optNeg {
+				k.DL |= 0x80
+			}
+			current = k
+			judge(c, k, h)
+		}
+		c.Outcome(fmt.Sprintf("history/len=%d", l))
+	})
+
 	// ---- schedules: merged from the schedule explorer's summary
 	mergeSchedSummary(r, "C16")
 
